@@ -126,7 +126,7 @@ class RecordingMixin:
             elif kind == "reject":
                 resp = RejectPDU(reason=5, context=apdu)
             elif kind == "abort":
-                resp = AbortPDU(srv=True, reason=0, context=apdu)
+                resp = AbortPDU(reason=0, context=apdu)           # (the role bit is the library's business)
             elif kind == "simple":
                 resp = SimpleAckPDU(context=apdu)
             else:
